@@ -1,20 +1,20 @@
 HOOK_COMMITS = ["26208dd"]
 
-check("C01", "exploration",
-      "Every published round of thousands of real executions (real Builder/Tracer/Strategy/Channel/State over the simulated network) is compared slot by slot with simulator ground truth by the TLA+ monitor MonLoop (clauses C01_*), evaluated by TLC at every step.",
-      TRUSTED, "TLC trace validation of harness event logs against TLA+ monitor clauses C01_Slots/Exact/RoundNo/Totals", "7 C01")
-check("C03", "exploration",
-      "Noise scenarios (duplicates, late, foreign, never-sent, unrelated ICMP) over many rounds incl. sequence wrap-around; the hook-logged projection of the private bookkeeping before/after every labelled delivery is compared by the TLA+ monitor (C03_NoOp, C03_Genuine) and publications are checked against ground truth.",
-      TRUSTED, "TLC trace validation: C03_NoOp / C03_Genuine over hook projections + C01 clauses", "7 C03")
-check("C06", "exploration",
-      "Scheduling clauses (TTL order, limit, no send after target, established distance, in-flight window, liveness) evaluated by TLC on every send event of real executions over random topologies incl. first-ttl up to 254 and max-inflight 1..255.",
-      TRUSTED, "TLC trace validation: C06_Order/Limit/Target/Known/Window/Live", "7 C06")
-check("C08", "exploration",
-      "Round-timing clauses evaluated by TLC on every publication of real executions under the virtual clock (exact microsecond times), all orderings of min/max/grace/read-timeout including zeros.",
-      TRUSTED, "TLC trace validation: C08_Allowed/Reason/Held/Start(+hook)", "7 C08")
-check("C09", "fault_enumeration",
-      "Random fault schedules (each transient kind, address-in-use, fatal, receive-side errors) injected at the socket layer of real executions; TLC evaluates termination, round numbering, error hand-off to snapshots, failed/skipped slots and re-issue.",
-      TRUSTED, "TLC trace validation: C09_PubOrder/End/Classify/Reissue/NoPanic with the transient-kind table as a TLA+ operator", "7 C09")
-check("C10", "exploration",
-      "Hop-table clauses (gap-free range, own TTLs, target hop, true distance on stable paths, empty when nothing answered) evaluated by TLC on the snapshot after every round of real executions.",
-      TRUSTED, "TLC trace validation: C10_Shape/Target/Distance/Nothing", "7 C10")
+check("C01", "model_checking",
+      "Model: TLC checks PublishedMatchesTruth / BookkeepingGenuine on Tracer.tla for every configuration in SchedOK (all interleavings). Implementation: Every published round of thousands of real executions (real Builder/Tracer/Strategy/Channel/State over the simulated network) is compared slot by slot with simulator ground truth by the TLA+ monitor MonLoop (clauses C01_*), evaluated by TLC at every step.",
+      TRUSTED, "TLC model checking of spec/Tracer.tla + TLC trace validation of harness event logs against TLA+ monitor clauses C01_Slots/Exact/RoundNo/Totals", "7 C01")
+check("C03", "model_checking",
+      "Model: TLC checks the action property NoiseIsNoOp and BookkeepingGenuine on Tracer.tla with duplicate/late/foreign/never-sent deliveries interleaved at every step (plus a non-vacuity instance that must fail). Implementation: Noise scenarios (duplicates, late, foreign, never-sent, unrelated ICMP) over many rounds incl. sequence wrap-around; the hook-logged projection of the private bookkeeping before/after every labelled delivery is compared by the TLA+ monitor (C03_NoOp, C03_Genuine) and publications are checked against ground truth.",
+      TRUSTED, "TLC model checking of spec/Tracer.tla + TLC trace validation: C03_NoOp / C03_Genuine over hook projections + C01 clauses", "7 C03")
+check("C06", "model_checking",
+      "Model: TLC checks TtlOrder/TtlLimit/NoSendAfterTarget/NotBeyondEstablished/Window/RoundNonEmpty on Tracer.tla for all 1<=first<=max<=4, inflight 1..4, distance 0..4 and all arrival orders, plus TCP re-issue instances. Implementation: Scheduling clauses (TTL order, limit, no send after target, established distance, in-flight window, liveness) evaluated by TLC on every send event of real executions over random topologies incl. first-ttl up to 254 and max-inflight 1..255.",
+      TRUSTED, "TLC model checking of spec/Tracer.tla + TLC trace validation: C06_Order/Limit/Target/Known/Window/Live", "7 C06")
+check("C08", "model_checking",
+      "Model: TLC checks PublishOnlyWhenAllowed/ReasonConsistent/HeldOpenBound/NextRoundStartsAtPublish on Tracer.tla with an explicit clock for all min<=max, grace, read-timeout in 0..3 ticks. Implementation: Round-timing clauses evaluated by TLC on every publication of real executions under the virtual clock (exact microsecond times), all orderings of min/max/grace/read-timeout including zeros.",
+      TRUSTED, "TLC model checking of spec/Tracer.tla + TLC trace validation: C08_Allowed/Reason/Held/Start(+hook)", "7 C08")
+check("C09", "model_checking",
+      "Model: TLC checks ExactlyNRounds/PubNumbering/ErrorOnlyAfterFatal/FatalEnds/PublishedMatchesTruth on Tracer.tla with every send outcome (ok, failed, fatal, in-use) and receive failure at every step. Implementation: Random fault schedules (each transient kind, address-in-use, fatal, receive-side errors) injected at the socket layer of real executions; TLC evaluates termination, round numbering, error hand-off to snapshots, failed/skipped slots and re-issue.",
+      TRUSTED, "TLC model checking of spec/Tracer.tla + TLC trace validation: C09_PubOrder/End/Classify/Reissue/NoPanic with the transient-kind table as a TLA+ operator", "7 C09")
+check("C10", "model_checking",
+      "Model: TLC checks RoundWellFormed/StablePathLength/NothingAnswered (the output contract of publish_trace) on Tracer.tla. Implementation: Hop-table clauses (gap-free range, own TTLs, target hop, true distance on stable paths, empty when nothing answered) evaluated by TLC on the snapshot after every round of real executions.",
+      TRUSTED, "TLC model checking of spec/Tracer.tla + TLC trace validation: C10_Shape/Target/Distance/Nothing", "7 C10")
